@@ -29,7 +29,7 @@ MEDIUM = ['linear_fingerprint', 'morgan_fingerprint', 'automorphism', 'self_sub'
 EXPENSIVE = ['standardize', 'enumerate_kekule', 'enumerate_tautomers', 'canonicalize_log', 'standardize_log', 'neutralize_log',
              'standardize_charges_log', 'fix_resonance_log', 'implicify_hydrogens_log', 'enumerate_charged_forms', 'mcs', 'split',
              'remove_metals_log', 'remove_acids_log', 'split_metal_salts_log']
-N_SMARTS = 36
+N_SMARTS = 44
 EXTRA_SMILES = [
     'C[C@H](N)C(=O)O', 'C[C@@H](O)[C@H](O)C', 'C/C=C/C', 'C/C=C\\Cl', 'CC=[C@]=CCl', 'C[C@H]1CC[C@@H](C)CC1', 'C[C@H]1C[C@@H]1C',
     'C[C@H](O)[C@H](O)[C@@H](C)O', 'C/C=C/[C@H](O)/C=C\\C', 'O[C@H]1C[C@@H](O)C1', 'C[C@H]1C[C@H](C)C[C@H](C)C1',
@@ -56,6 +56,7 @@ CORE_SMILES = [
     'NC(CC(=O)C)C(=O)O', 'OC(=O)CC(=O)CCN', 'CC(=O)CC(C)=O', 'Oc1ccccn1',                                      # tautomers
     'C.C.C', 'CCO.CCO.CCN', '[Na+].[Na+].[O-]S([O-])(=O)=O',                                                   # identical / many components
     'Cl[Pt](Cl)(N)N', 'C[Mg]Br', 'N[Cu]N',                                                                     # metals
+    'C1CNCCN1', 'C1CN1', 'CN1CCOCC1', 'NCCO', 'OCCNCCO',                                                       # symmetric match sites for wildcard-first queries
     'Cc1cn2ccsc2n1', 'N1C=Cn2cccc12', 'c1ccc2c(c1)[nH]c1ccccc21', 'C1=CC2=CC=CN2C=C1',                        # fused hetero rings (scoped matching inside thiele)
     'CN(C)(C)=O', 'CN(=O)=O', 'C[S+](C)[O-]', 'CN=[N+]=[N-]', 'C=[N+]=[N-]',                                   # standardisation groups
 ]
